@@ -581,4 +581,126 @@ theorem OInv_run (nbrs : Nat → List Nat) (mp n : Nat)
     rw [List.range_succ, List.foldl_append]
     exact OInv_step nbrs mp n hrange hnd hsym _ k ih
 
+/-! ## Layer 4: cluster ids are handed out in the order of the outer scan -/
+
+/-- every id `v` in use has a core sample `s` (the sample that started the cluster) that precedes every
+core sample carrying a larger id -/
+def Ord (nbrs : Nat → List Nat) (mp : Nat) (L : List (Option Nat)) (c k : Nat) : Prop :=
+  ∀ v, v < c → ∃ s, s < k ∧ core nbrs mp s ∧ isLab L s v ∧
+    ∀ y w, core nbrs mp y → isLab L y w → v < w → s < y
+
+theorem Ord_step (nbrs : Nat → List Nat) (mp n : Nat)
+    (hrange : ∀ i, ∀ j ∈ nbrs i, j < n) (hnd : ∀ i, (nbrs i).Nodup)
+    (sc : State × Nat) (i : Nat) (h : OInv nbrs mp n sc i) (ho : Ord nbrs mp sc.1.labels sc.2 i) :
+    Ord nbrs mp (outerStep nbrs mp n sc i).1.labels (outerStep nbrs mp n sc i).2 (i + 1) := by
+  have weaken : Ord nbrs mp sc.1.labels sc.2 (i + 1) := by
+    intro v hv
+    obtain ⟨s, s1, s2⟩ := ho v hv
+    exact ⟨s, by omega, s2⟩
+  unfold outerStep
+  by_cases hu : unl sc.1.labels i = true
+  · simp only [hu, Bool.not_true, Bool.false_eq_true, if_false, findNeighbors]
+    by_cases hc : (nbrs i).length < mp
+    · simp only [hc, if_true]
+      exact weaken
+    · simp only [hc, if_false]
+      have hcore : core nbrs mp i := by unfold core; omega
+      rw [h.qe]
+      have b0 := BInv_init nbrs mp n hrange hnd sc.1.labels sc.1.found sc.2 i h.g h.q hu hcore
+      generalize hs1 : State.mk (sc.1.labels.set i (some sc.2))
+        (markAll ((nbrs i).filter (fun j => unl sc.1.labels j && j != i)) sc.1.found)
+        ([] ++ (nbrs i).filter (fun j => unl sc.1.labels j && j != i)) = s1 at b0 ⊢
+      have b1 : BInv nbrs mp sc.1.labels sc.2 i (bfs nbrs mp sc.2 n s1) :=
+        bfs_induct nbrs mp sc.2 (BInv nbrs mp sc.1.labels sc.2 i)
+          (fun s c q hs hq => BInv_popStep nbrs mp n sc.1.labels sc.2 i hrange h.g.len s c q hs hq)
+          n s1 b0
+      intro v hv
+      by_cases hvc : v < sc.2
+      · obtain ⟨s, s1', s2, s3, s4⟩ := ho v hvc
+        refine ⟨s, by omega, s2, b1.keep s v s3, fun y w hy hyw hvw => ?_⟩
+        rcases b1.new y w hyw with a | ⟨a, _⟩
+        · exact s4 y w hy a hvw
+        · -- `y` was unlabelled before this cluster and is core: the scan has not passed it
+          have : ¬ y < i := fun hlt => h.scanned y hlt a hy
+          omega
+      · have hveq : v = sc.2 := by omega
+        subst hveq
+        refine ⟨i, by omega, hcore, b1.seedLab, fun y w _ hyw hvw => ?_⟩
+        rcases b1.new y w hyw with a | ⟨_, a⟩
+        · have := h.g.lt y w a; omega
+        · omega
+  · have hu' : unl sc.1.labels i = false := by simpa using hu
+    simp only [hu', Bool.not_false, if_true]
+    exact weaken
+
+theorem Ord_run (nbrs : Nat → List Nat) (mp n : Nat)
+    (hrange : ∀ i, ∀ j ∈ nbrs i, j < n) (hnd : ∀ i, (nbrs i).Nodup)
+    (hsym : ∀ i j, j ∈ nbrs i → i ∈ nbrs j) :
+    ∀ k, Ord nbrs mp ((List.range k).foldl (outerStep nbrs mp n) (init n, 0)).1.labels
+      ((List.range k).foldl (outerStep nbrs mp n) (init n, 0)).2 k := by
+  intro k
+  induction k with
+  | zero => intro v hv; simp [init] at hv
+  | succ k ih =>
+    rw [List.range_succ, List.foldl_append]
+    exact Ord_step nbrs mp n hrange hnd _ k (OInv_run nbrs mp n hrange hnd hsym k) ih
+
+theorem isLab_inj {L : List (Option Nat)} {x v w : Nat} (h1 : isLab L x v) (h2 : isLab L x w) : v = w := by
+  unfold isLab at h1 h2
+  rw [h1] at h2
+  exact Option.some.inj (Option.some.inj h2)
+
+/-- two labellings of the same samples `C` that induce the same partition of `C` and both number their
+classes in the order of the smallest member are equal on `C` -/
+theorem labels_eq_dir (C : Nat → Prop) (L₁ L₂ : List (Option Nat))
+    (lab₁ : ∀ x, C x → ∃ v, isLab L₁ x v) (lab₂ : ∀ x, C x → ∃ v, isLab L₂ x v)
+    (part : ∀ x y, C x → C y →
+      ((∃ v, isLab L₁ x v ∧ isLab L₁ y v) ↔ (∃ v, isLab L₂ x v ∧ isLab L₂ y v)))
+    (o₁ : ∀ v w y, v < w → C y → isLab L₁ y w →
+      ∃ s, C s ∧ isLab L₁ s v ∧ ∀ y', C y' → isLab L₁ y' w → s < y')
+    (o₂ : ∀ v w y, v < w → C y → isLab L₂ y w →
+      ∃ s, C s ∧ isLab L₂ s v ∧ ∀ y', C y' → isLab L₂ y' w → s < y')
+    (v : Nat) (ih : ∀ u, u < v → ∀ x, C x → (isLab L₁ x u ↔ isLab L₂ x u))
+    (x : Nat) (hx : C x) (h1 : isLab L₁ x v) : isLab L₂ x v := by
+  obtain ⟨w, hw⟩ := lab₂ x hx
+  rcases Nat.lt_trichotomy w v with hlt | heq | hgt
+  · have := (ih w hlt x hx).mpr hw
+    have := isLab_inj this h1; omega
+  · subst heq; exact hw
+  · obtain ⟨s₂, c2, l2, m2⟩ := o₂ v w x hgt hx hw
+    obtain ⟨u, hu⟩ := lab₁ s₂ c2
+    rcases Nat.lt_trichotomy u v with ult | ueq | ugt
+    · have := (ih u ult s₂ c2).mp hu
+      have := isLab_inj this l2; omega
+    · subst ueq
+      obtain ⟨v', a, b⟩ := (part s₂ x c2 hx).mp ⟨u, hu, h1⟩
+      have e1 := isLab_inj a l2
+      have e2 := isLab_inj b hw
+      omega
+    · obtain ⟨s₁, c1, l1, m1⟩ := o₁ v u s₂ ugt c2 hu
+      have lt1 : s₁ < s₂ := m1 s₂ c2 hu
+      obtain ⟨v', a, b⟩ := (part s₁ x c1 hx).mp ⟨v, l1, h1⟩
+      have e2 := isLab_inj b hw
+      subst e2
+      have lt2 : s₂ < s₁ := m2 s₁ c1 a
+      omega
+
+theorem labels_eq_of_spec (C : Nat → Prop) (L₁ L₂ : List (Option Nat))
+    (lab₁ : ∀ x, C x → ∃ v, isLab L₁ x v) (lab₂ : ∀ x, C x → ∃ v, isLab L₂ x v)
+    (part : ∀ x y, C x → C y →
+      ((∃ v, isLab L₁ x v ∧ isLab L₁ y v) ↔ (∃ v, isLab L₂ x v ∧ isLab L₂ y v)))
+    (o₁ : ∀ v w y, v < w → C y → isLab L₁ y w →
+      ∃ s, C s ∧ isLab L₁ s v ∧ ∀ y', C y' → isLab L₁ y' w → s < y')
+    (o₂ : ∀ v w y, v < w → C y → isLab L₂ y w →
+      ∃ s, C s ∧ isLab L₂ s v ∧ ∀ y', C y' → isLab L₂ y' w → s < y') :
+    ∀ v x, C x → (isLab L₁ x v ↔ isLab L₂ x v) := by
+  intro v
+  induction v using Nat.strongRecOn with
+  | _ v ih =>
+    intro x hx
+    constructor
+    · exact labels_eq_dir C L₁ L₂ lab₁ lab₂ part o₁ o₂ v ih x hx
+    · exact labels_eq_dir C L₂ L₁ lab₂ lab₁ (fun x y a b => (part x y a b).symm) o₂ o₁ v
+        (fun u hu x hx => (ih u hu x hx).symm) x hx
+
 end LinfaSpec.Dbscan
